@@ -43,7 +43,10 @@ type Exec struct {
 	shapes   map[string]bool
 	lastCompactions uint64
 	lastPartial     uint64
-	gaugeZeroSeen   bool
+	histCompactions uint64
+	histPersists    uint64
+	revertedOnce    bool
+	lastShape       string
 
 	md *multiState
 }
@@ -62,6 +65,9 @@ type copyRec struct {
 }
 
 var runSeq int64
+
+// RealMode runs cases against unrewritten moss with real goroutines.
+var RealMode bool
 
 // RunCase executes c and returns its outcome.  It never panics: harness
 // trouble is reported through err.
@@ -87,7 +93,15 @@ func RunCase(c *Case) (out *Outcome, err error) {
 	pol := simrt.Policy{Kind: c.Policy.Kind, Sticky: c.Policy.Sticky, DriverW: c.Policy.DriverW, BgW: c.Policy.BgW,
 		PAdvance: c.Policy.PAdvance, PctD: c.Policy.PctD, Horizon: c.Policy.Horizon}
 	cfg := simrt.Config{Seed: c.SchedSeed, Policy: pol, MaxSteps: c.MaxSteps, Replay: c.Decisions, LogPath: os.Getenv("VERIF_EVENTLOG")}
-	res := simrt.Run(cfg, e.main)
+	var res *simrt.Result
+	if RealMode {
+		// differential mode: same program and oracles, real goroutines, no
+		// scheduler (the moss copy linked in is not rewritten)
+		e.main()
+		res = &simrt.Result{}
+	} else {
+		res = simrt.Run(cfg, e.main)
+	}
 
 	o := e.out
 	o.Steps, o.Switches, o.SimNanos = res.Steps, res.Switches, res.SimNanos
@@ -158,6 +172,7 @@ func (e *Exec) detail(extra map[string]string) map[string]string {
 		"faultsInjected": fmt.Sprint(e.fs.FaultSeen),
 		"compactions":    fmt.Sprint(e.lastCompactions),
 		"partials":       fmt.Sprint(e.lastPartial),
+		"shape":          e.lastShape,
 	}
 	kids, merges, childOnly, delKid, emptyKey := false, false, false, false, false
 	scan := func(ops []Op) {
@@ -398,6 +413,7 @@ func (e *Exec) onPersistRound() {
 	defer simrt.NoPreempt(false)
 	j := e.checkStore("persist-round")
 	e.fs.MarkOp("round", j, !e.opts.NoSync)
+	e.afterRoundCompactionCheck(j)
 	if e.flag("history") {
 		e.recordRound()
 	}
@@ -620,6 +636,7 @@ func (e *Exec) noteShape() {
 	if nonEmpty >= 2 {
 		e.probe("multi-section-compare")
 	}
+	e.lastShape = fmt.Sprintf("top%d/mid%d/base%d/clean%d/store%d", st.CurDirtyTopSegments, st.CurDirtyMidSegments, st.CurDirtyBaseSegments, st.CurCleanSegments, segs)
 	e.shapes[fmt.Sprintf("top%d/mid%d/base%d/clean%d/store%d", capN(st.CurDirtyTopSegments), capN(st.CurDirtyMidSegments),
 		capN(st.CurDirtyBaseSegments), capN(st.CurCleanSegments), capN(segs))] = true
 }
@@ -715,6 +732,10 @@ func (e *Exec) checkStore(why string) int {
 	if e.store == nil && e.ll == nil {
 		return e.lb
 	}
+	// The bound is read before the snapshot is taken: another task (the
+	// persister's round callback) may raise e.lb while this task is still
+	// reading an older - perfectly legitimate - snapshot.
+	lb0 := e.lb
 	content, ss, err := e.lowerContent()
 	if err != nil {
 		e.failD("store-read-error", map[string]string{"symptom": "error", "where": "store"}, "reading the lower level (%s): %v", why, err)
@@ -729,12 +750,14 @@ func (e *Exec) checkStore(why string) int {
 		e.failD("store-not-prefix", map[string]string{"symptom": "not-prefix", "where": "store", "diff": d},
 			"lower level (%s) equals no prefix of the %d executed batches; against the full reference: %s", why, e.hist.N(), d)
 	}
-	j := Advance(e.lb, J)
+	j := Advance(lb0, J)
 	if j < 0 {
 		e.failD("store-went-back", map[string]string{"symptom": "went-back", "where": "store"},
-			"lower level (%s) shows prefix %v, older than the prefix %d it had exposed before", why, J, e.lb)
+			"lower level (%s) shows prefix %v (content %s), older than the prefix %d it had exposed before", why, J, trunc(content.Canon(), 200), lb0)
 	}
-	e.lb = j
+	if j > e.lb {
+		e.lb = j
+	}
 	if ss != nil {
 		if m := equalContent(ss, e.hist.Models[j], e.probeKeys(), ""); m != nil {
 			e.failD("store-content-mismatch", map[string]string{"symptom": m.Kind, "where": "store", "path": m.Path, "key": m.Key},
@@ -794,6 +817,7 @@ func (e *Exec) drain() bool {
 		e.verifyMode(false)
 		if j == e.hist.N() {
 			e.drained = true
+			e.gaugesSettle()
 			return true
 		}
 		e.coll.(interface {
@@ -920,7 +944,16 @@ func (e *Exec) finish() {
 	}
 	if leak {
 		e.checkLeaks()
+	} else if e.flag("dirCheck") && e.opts.Backing == "store" {
+		e.checkDirectory("after closing everything")
 	}
 }
 
 func msDur(ms int) time.Duration { return time.Duration(ms) * time.Millisecond }
+
+func trunc(s string, n int) string {
+	if len(s) > n {
+		return s[:n] + "..."
+	}
+	return s
+}
